@@ -1,6 +1,7 @@
 package checks
 
 import (
+	"bytes"
 	"context"
 	"errors"
 	"fmt"
@@ -20,6 +21,31 @@ type s1Delivery struct {
 	Hdr  [10]byte
 	Body []byte
 	At   time.Time
+	// the delivered message itself is retained, as an application may do: a delivered message is immutable, so what
+	// it says at the end of the scenario must be what it said in the handler (Hdr, Body are copies taken there)
+	Msg *hsms.DataMessage
+}
+
+// AlteredLater re-reads every retained message and reports those whose header or body no longer equal the copy
+// taken inside the handler.
+func (e *s1End) AlteredLater() []string {
+	e.mu.Lock()
+	defer e.mu.Unlock()
+	var out []string
+	for k, d := range e.got {
+		if d.Msg == nil {
+			continue
+		}
+		hdr, body := d.Msg.HeaderBytes(), d.Msg.AppendBodyTo(nil)
+		if body == nil {
+			body = []byte{}
+		}
+		if hdr != d.Hdr || !bytes.Equal(body, d.Body) {
+			out = append(out, fmt.Sprintf("delivery %d (S%dF%d, sys %x): the handler saw %d body bytes %s, the retained message now holds %d body bytes %s", k, d.Hdr[2]&0x7F, d.Hdr[3], d.Hdr[6:10], len(d.Body), hexClip(d.Body), len(body), hexClip(body)))
+		}
+	}
+
+	return out
 }
 
 // s1Opts configures one real secs1 connection used by C17/C18.
@@ -90,7 +116,7 @@ func s1New(o s1Opts) (*s1End, error) {
 		return nil, err
 	}
 	conn.AddDataMessageHandler(func(msg *hsms.DataMessage, _ hsms.SECS2Endpoint) {
-		d := s1Delivery{Hdr: msg.HeaderBytes(), Body: msg.AppendBodyTo(nil), At: time.Now()}
+		d := s1Delivery{Hdr: msg.HeaderBytes(), Body: msg.AppendBodyTo(nil), At: time.Now(), Msg: msg}
 		if d.Body == nil {
 			d.Body = []byte{}
 		}
